@@ -32,9 +32,12 @@ def operator_ladder(f, res, a, b, op):
                 and isinstance(n.test.comparators[0], ast.Constant):
             tok = n.test.comparators[0].value
             assigns = [s for s in n.body if isinstance(s, ast.Assign) and ws(unparse(s.targets[0])) == res]
-            if len(assigns) != 1 or not isinstance(assigns[0].value, ast.BinOp):
-                raise AnalysisError('%s: branch for %r is not a single binary operation' % (f.fq, tok))
+            if len(assigns) != 1:
+                raise AnalysisError('%s: branch for %r does not assign the result once' % (f.fq, tok))
             v = assigns[0].value
+            if not isinstance(v, ast.BinOp):
+                out[tok] = 'not one integer operator on the two operands: ' + ws(unparse(v))
+                continue
             if ws(unparse(v.left)) != a or ws(unparse(v.right)) != b:
                 out[tok] = 'operands swapped or foreign: ' + ws(unparse(v))
             else:
